@@ -1075,6 +1075,9 @@ class Explorer:
                 arr = None
             # the array was written through the box: stored under the moved-from local; look at value
             if v[0] == "boxarr":
+                # vec![a, b]: the elements are emitted here, in order (same effect as Vec::new() + push + push)
+                for it in v[1]:
+                    st.effects.append(("push", ("vec!",), it, site, ()))
                 return ret(("vec", v[1]))
             return ret(("vec", (("evs?",),)))
         if p == "std::vec::Vec::<T, A>::push" and tracked_elem(info["targs"][0]):
@@ -1306,6 +1309,37 @@ class Explorer:
                     return ret(out(SYM(("enum_eq", x[1], y[1], y[2]))))
             if a[0] == "c" and b[0] == "c":
                 return ret(out(C(1 if a[1] == b[1] else 0, "bool")))
+            OPTRES = ("std::option::Option", "std::result::Result")
+            if a[0] == "agg" and b[0] == "agg" and a[1] == b[1] and a[1] in OPTRES:
+                if a[2] != b[2]:
+                    return ret(out(C(0, "bool")))
+                if len(a[3]) == 1 and len(b[3]) == 1 and a[3][0][0] in ("c", "sym") and b[3][0][0] in ("c", "sym"):
+                    return ret(out(self.binop(st, "Eq", a[3][0], b[3][0])))
+            for (x, y) in ((a, b), (b, a)):
+                # opt == Some(v): decide opt's variant, then compare the payloads
+                if x[0] == "sym" and y[0] == "agg" and y[1] in OPTRES and len(y[3]) == 1 and y[3][0][0] in ("c", "sym"):
+                    dt = ("discr", x[1], y[1])
+                    alts = []
+                    others = [vv["name"] for vv in self.F.adt(y[1])["variants"] if vv["name"] != y[2]] if y[1] in self.F.adts else \
+                        [n for n in (("Some", "None") if y[1].endswith("Option") else ("Ok", "Err")) if n != y[2]]
+                    for variant in [y[2]] + others:
+                        s2 = st.clone()
+                        if not self.constrain(s2, dt, "eq", self.variant_discr(y[1], variant)):
+                            continue
+                        k2 = self.clone_stack(stack)
+                        if variant == y[2]:
+                            val = out(self.binop(s2, "Eq", SYM(self.cap(("field", x[1], 0))), y[3][0]))
+                        else:
+                            val = out(C(0, "bool"))
+                        self.write_place(s2, k2[-1], dest, val, site)
+                        if target is None:
+                            continue
+                        k2[-1].bb = target
+                        alts.append((s2, k2))
+                    if not alts:
+                        self.finish_path(st, None, "diverge")
+                        return "stop"
+                    return ("fork", alts)
             return ret(out(SYM(self.cap(("cmp", "Eq", a, b)))))
         if p in ("std::cmp::PartialOrd::lt", "std::cmp::PartialOrd::le", "std::cmp::PartialOrd::gt", "std::cmp::PartialOrd::ge"):
             a = self.deref(st, args[0])
@@ -1325,7 +1359,11 @@ class Explorer:
         # ---- Option / Result combinators taking a local closure: decided by the receiver's variant
         COMB = {"std::option::Option::<T>::map_or": ("opt", "map_or"), "std::option::Option::<T>::map": ("opt", "map"),
                 "std::option::Option::<T>::and_then": ("opt", "and_then"), "std::option::Option::<T>::unwrap_or_else": ("opt", "unwrap_or_else"),
-                "std::result::Result::<T, E>::map_err": ("res", "map_err"), "std::result::Result::<T, E>::map": ("res", "map")}
+                "std::result::Result::<T, E>::map_err": ("res", "map_err"), "std::result::Result::<T, E>::map": ("res", "map"),
+                "std::option::Option::<T>::is_some_and": ("opt", "is_some_and"), "std::option::Option::<T>::is_none_or": ("opt", "is_none_or"),
+                "std::result::Result::<T, E>::is_ok_and": ("res", "is_ok_and"), "std::result::Result::<T, E>::is_err_and": ("res", "is_err_and"),
+                "std::option::Option::<T>::or_else": ("opt", "or_else"), "std::option::Option::<T>::map_or_else": ("opt", "map_or_else"),
+                "std::result::Result::<T, E>::unwrap_or_else": ("res", "unwrap_or_else_r"), "std::result::Result::<T, E>::and_then": ("res", "and_then_r")}
         if p in COMB and self.closure_of(st, args[-1]) is not None and self.closure_of(st, args[-1])[1] in self.F.fns:
             return self.combinator(st, stack, fr, COMB[p], args, t, site, info, path)
         # ---- higher-order calls with a local closure argument
@@ -1346,11 +1384,21 @@ class Explorer:
         OPT, RES = "std::option::Option", "std::result::Result"
         adt = OPT if fam == "opt" else RES
         # which variant runs the closure, and what the other variant yields
-        run_on = {"map_or": "Some", "map": "Some" if fam == "opt" else "Ok", "and_then": "Some", "unwrap_or_else": "None", "map_err": "Err"}[name]
+        run_on = {"map_or": "Some", "map": "Some" if fam == "opt" else "Ok", "and_then": "Some", "unwrap_or_else": "None", "map_err": "Err",
+                  "is_some_and": "Some", "is_none_or": "Some", "is_ok_and": "Ok", "is_err_and": "Err", "or_else": "None",
+                  "unwrap_or_else_r": "Err", "and_then_r": "Ok"}.get(name)
+        if name == "map_or_else":
+            return None      # two closures: left opaque
 
         def passthrough(v, variant):
             if name == "map_or":
                 return args[1]
+            if name in ("is_some_and", "is_ok_and", "is_err_and"):
+                return C(0, "bool")
+            if name == "is_none_or":
+                return C(1, "bool")
+            if name == "unwrap_or_else_r":
+                return v[3][0] if v[0] == "agg" else SYM(self.cap(("field", v[1], 0)))
             if name == "unwrap_or_else":
                 return v[3][0] if v[0] == "agg" else SYM(self.cap(("field", v[1], 0)))
             if v[0] == "agg":
@@ -1359,7 +1407,8 @@ class Explorer:
             return AGG(adt, variant, inner)
 
         def wrap(retv):
-            if name in ("map_or", "and_then", "unwrap_or_else"):
+            if name in ("map_or", "and_then", "unwrap_or_else", "is_some_and", "is_none_or", "is_ok_and", "is_err_and", "or_else",
+                        "unwrap_or_else_r", "and_then_r"):
                 return retv
             if name == "map":
                 return AGG(adt, "Some" if fam == "opt" else "Ok", (retv,))
